@@ -354,7 +354,7 @@ func convStream(r *Run) {
 		VFlt(1, 9.3e18), VFlt(1, -9.3e18), VFlt(1, 9223372036854775807), VFlt(1, -9223372036854775808), VFlt(1, 1e300), VFlt(1, 0.999), VFlt(1, -0.999), VFlt(0, 2.5),
 		VArr(TAny, VNil(), VInt(0, 1)), VSlice(TStr), VStrMap(SKV("a", VNil())), VMapSlice(SKV("a", VNil()), KV(VNil(), VInt(0, 1))), VBytes("\x00\xff"),
 		VAnys(VDrop(VDrop(VInt(0, 1)))), VDrop(VDrop(VStr("a"))), VPtr(VDrop(VInt(0, 1))), VPtr(VAnys(VInt(0, 1), VInt(0, 2))), VPtr(VStruct(Field{"a", VInt(0, 1)})),
-		VAnys(VPtr(VInt(0, 1))), VAnys(VNilPtr()), VTime(0), VAnys(VTime(0)), VRange(5, 1), VRange(-2, 2),
+		VAnys(VPtr(VInt(0, 1))), VAnys(VNilPtr()), VTime(0), VAnys(VTime(0)), VRange(5, 1), VRange(-2, 2), VRange(1, 10000001),
 		VMap(TAny, TAny, KV(VInt(0, 2), VStr("b")), KV(VInt(0, 1), VStr("a"))), VMap(TAny, TAny, KV(VInt(0, 2), VStr("b")), KV(VStr("a"), VStr("a"))),
 		VMap(TInt(0), TStr, KV(VInt(0, 10), VStr("b")), KV(VInt(0, 9), VStr("a")), KV(VInt(0, -1), VStr("c"))),
 		VMap(TFlt(1), TAny, KV(VFlt(1, 2.5), VNil()), KV(VFlt(1, -1), VInt(0, 1))), VMap(TBool, TInt(0), KV(VBool(true), VInt(0, 1)), KV(VBool(false), VInt(0, 0))),
